@@ -174,10 +174,14 @@ def erase(kind, entries, lo, hi, a, b, mode, shrink):
         else:  # starts at or after b
             res.append((F(s) - d if s != b else F(a), F(e) - d, l))
     alts = [res]
-    # optional merge of two different same-labelled entries meeting at the seam
+    # optional merge of two different same-labelled entries meeting at the seam (meeting: exactly, or - the shifted start being a
+    # computed value - within rounding of the seam)
+    import math
+
+    tol = F(math.ulp(max(abs(float(v)) for v in (a, b, lo, hi)) or 1.0)) * 4
     for i in range(len(res) - 1):
         x, y = res[i], res[i + 1]
-        if x[1] == a and F(y[0]) == F(a) and x[2] == y[2]:
+        if abs(F(x[1]) - F(a)) <= tol and abs(F(y[0]) - F(a)) <= tol and x[2] == y[2]:
             merged = res[:i] + [(x[0], y[1], x[2])] + res[i + 2:]
             alts.append(merged)
             break
